@@ -532,14 +532,15 @@ def PubSubSubscriptionOwner := subscriptionIn nsPubsubOwner [
 
 `QXmppIq` (src/base/QXmppIq.cpp:82-130, QXmppStanza::parse): `id`, `to`, `from`, `type` (unknown / absent ⇒ get, always
 written), every child except `<error/>` elements as an extension (since /repo c75793d ALL of them are skipped), then the
-error (first `<error/>`, `StanzaError` above).  `xml:lang` is neither read (`attribute("lang")` finds nothing) nor written.
+error (first `<error/>`, `StanzaError` above).  `xml:lang` is read (QDom finds it under the name `lang`) and, since /repo fc1d2c5,
+written like message and presence do (before: fixed finding C01:field-mismatch:Iq:lang).
 The stanza has no namespace declaration of its own: it lives in the stream's `jabber:client`. -/
 
 def iqTypes : List Str := ["error", "get", "set", "result"].map s
 def errorGuard : ChildMode := .wrapGuard [false, true, false, true]
 def Iq : Schema :=
   { head := inhHead "iq" nsClient, check := .unchecked, inh := nsClient,
-    fields := [.attr (s "id") .str true, .attr (s "to") .str true, .attr (s "from") .str true,
+    fields := [.attr (s "xml:lang") .str true, .attr (s "id") .str true, .attr (s "to") .str true, .attr (s "from") .str true,
       .attr (s "type") (.enumD iqTypes 1) false,
       .rest nsClient [⟨some (s "error"), none⟩],
       .child (anyHead "error" nsClient) stanzaErrorFields errorGuard] }
